@@ -1,7 +1,755 @@
-//! C07: not built yet.
-use anyhow::{bail, Result};
-use serde_json::Value;
+//! C07: dukebox::remap::remap(jar, remapper) -> ParsedJar -> to_mem() -> reopened zip.
+//!
+//! record  {"op":"remap","cls":label,"M":mapping tree (2 namespaces),"lib":{class:[super types..]},"jar":[entry..]}
+//!   entry {"n":name,"k":"dir"} | {"n":name,"k":"other","d":text} | {"n":name,"k":"class","c":SRC}
+//!   SRC   a generated class {"this","super","itfs","fields":[[name,desc]..],"methods":[[name,desc]..],"items":[ITEM..]}
+//!         (the item list of spec/jar/JarRemap.tla, assembled by cfkit) | {"corpus":id} | {"sample":name}
+//! got     {"ok":true,
+//!          "sup": {class:[super types..]}            inheritance as the harness reads it from the input (cfkit) + lib
+//!          "in":  {"entries":[[name,kind,content id]..],"classes":{entry name: OBS}}
+//!          "out": {"entries":[..],"names":{name:kind},"classes":{entry name: OBS + "wf"}}
+//!          "tree":{entry name:{"frames":[[class,"",""]..]}}   stack map types of the remapped tree (the writer emits none)}
+//!         | {"ok":false,"v":[],"stage":..,"err":..}
+//!   OBS   {"this":s,"rows":{kind:[[owner,name,desc]..]},"res":{chunk:content id}}
+//!         rows = cfkit::refs::references of the class parsed by cfkit, per kind in document order ("" = column absent);
+//!         res = cfkit::refs::residual cut into chunks.  The driver computes no expectation: TLC maps the rows.
+use std::collections::{BTreeMap, HashMap};
+use std::io::{Cursor, Read};
+use std::sync::OnceLock;
+use anyhow::{anyhow, bail, Context, Result};
+use indexmap::{IndexMap, IndexSet};
+use rand::rngs::StdRng;
+use rand::seq::SliceRandom;
+use rand::{Rng, SeedableRng};
+use serde_json::{json, Map, Value};
+use duke::tree::class::ObjClassName;
+use dukebox::storage::{ClassRepr, Jar, JarEntryEnum, UnnamedMemJar};
+use quill::remapper::JarSuperProv;
+use quill::tree::mappings::Mappings;
+use crate::jarkit::zip_entries;
+use crate::proj_quill::*;
 
-pub fn exec(_v: &Value) -> Result<Value> { bail!("C07: driver not built") }
+pub const KINDS: &[&str] = &[
+	"this", "super", "interface", "field_decl", "method_decl", "insn_field", "insn_method", "insn_class", "ldc_class", "ldc_mtype",
+	"handle", "indy_nt", "bsm_arg_class", "bsm_arg_mtype", "bsm_arg_handle", "catch", "frame_object", "anno_type", "anno_enum",
+	"anno_class", "signature", "inner_class_inner", "inner_class_outer", "enclosing_method", "nest_host", "nest_member", "permitted",
+	"record_component", "lvt_desc", "lvtt_sig", "exceptions", "module_uses", "module_provides", "module_provides_with", "module_main",
+	"x_inner_name", "x_anno_elem",
+];
 
-pub fn gen(_seed: u64, _n: usize) -> Result<Vec<Value>> { bail!("C07: driver not built") }
+// ---------------------------------------------------------------------------------------------------------------
+// generated classes: item list -> class facts
+
+fn st(v: &Value) -> &str { v.as_str().unwrap_or("") }
+
+fn handle_of(o: &str, n: &str, d: &str) -> Value {
+	let kind = if d.starts_with('(') { "invokestatic" } else { "getstatic" };
+	json!({"kind": kind, "owner": o, "name": n, "desc": d, "itf": false})
+}
+
+fn dyn_value(it: &Value) -> Value {
+	let b = &it["bsm"];
+	let args: Vec<Value> = it["args"].as_array().into_iter().flatten().map(|a| match st(&a[0]) {
+		"class" => json!({"class": a[1]}),
+		"mtype" => json!({"method_type": a[3]}),
+		_ => json!({"method_handle": handle_of(st(&a[1]), st(&a[2]), st(&a[3]))}),
+	}).collect();
+	json!({"bsm": handle_of(st(&b[0]), st(&b[1]), st(&b[2])), "args": args, "name": it["n"], "desc": it["d"]})
+}
+
+pub fn syn_class(c: &Value) -> Result<Value> {
+	use cfkit::samples::{class, code, member, method_with_code, op};
+	let this = st(&c["this"]);
+	let is_mod = this == "module-info";
+	let fields: Vec<Value> = c["fields"].as_array().into_iter().flatten().map(|f| member(0x1, st(&f[0]), st(&f[1]), json!({}))).collect();
+	let mut methods: Vec<Value> = c["methods"].as_array().into_iter().flatten().map(|m| member(0x401, st(&m[0]), st(&m[1]), json!({}))).collect();
+	let mut insns: Vec<Value> = vec![];
+	let (mut exc, mut frames, mut lvt, mut lvtt, mut throws) = (vec![], vec![], vec![], vec![], vec![]);
+	let mut attrs = Map::new();
+	let (mut annos, mut inner, mut members, mut permitted, mut record) = (vec![], vec![], vec![], vec![], vec![]);
+	let (mut uses, mut provides) = (vec![], vec![]);
+	let mut has_module = is_mod;
+	for it in c["items"].as_array().into_iter().flatten() {
+		match st(&it["t"]) {
+			"insn_field" => insns.push(json!({"op": "getstatic", "owner": it["o"], "name": it["n"], "desc": it["d"]})),
+			"insn_method" => insns.push(json!({"op": if st(&it["o"]).starts_with('[') { "invokevirtual" } else { "invokestatic" }, "owner": it["o"], "name": it["n"], "desc": it["d"], "itf": false})),
+			"insn_class" => insns.push(json!({"op": "checkcast", "class": it["c"]})),
+			"ldc_class" => insns.push(json!({"op": "ldc", "const": {"class": it["c"]}})),
+			"ldc_mtype" => insns.push(json!({"op": "ldc", "const": {"method_type": it["d"]}})),
+			"ldc_handle" => insns.push(json!({"op": "ldc", "const": {"method_handle": handle_of(st(&it["o"]), st(&it["n"]), st(&it["d"]))}})),
+			"indy" => insns.push(json!({"op": "invokedynamic", "indy": dyn_value(it)})),
+			"condy" => insns.push(json!({"op": "ldc", "const": {"dynamic": dyn_value(it)}})),
+			"catch" => exc.push(json!({"start": 0, "end": 1, "handler": 0, "catch": it["c"]})),
+			"frame" => frames.push(it["c"].clone()),
+			"lvt" => lvt.push(it["d"].clone()),
+			"lvtt" => lvtt.push(it["s"].clone()),
+			"exceptions" => throws.push(it["c"].clone()),
+			"anno" => {
+				let pairs: Vec<Value> = it["pairs"].as_array().into_iter().flatten().map(|p| json!([p[1], match st(&p[0]) {
+					"e" => json!({"e": {"type": p[2], "name": p[3]}}),
+					"c" => json!({"c": p[2]}),
+					_ => json!({"I": 1}),
+				}])).collect();
+				annos.push(json!({"type": it["ty"], "pairs": pairs}));
+			},
+			"sig" => { attrs.insert("Signature".into(), it["s"].clone()); },
+			"inner" => {
+				let mut r = json!({"inner": it["inner"], "access": 9});
+				if !st(&it["outer"]).is_empty() { r["outer"] = it["outer"].clone(); }
+				if !st(&it["name"]).is_empty() { r["name"] = it["name"].clone(); }
+				inner.push(r);
+			},
+			"encl" => {
+				let mut e = json!({"class": it["o"]});
+				if !st(&it["n"]).is_empty() { e["method"] = json!({"name": it["n"], "desc": it["d"]}); }
+				attrs.insert("EnclosingMethod".into(), e);
+			},
+			"nest_host" => { attrs.insert("NestHost".into(), it["c"].clone()); },
+			"nest_member" => members.push(it["c"].clone()),
+			"permitted" => permitted.push(it["c"].clone()),
+			"record" => record.push(json!({"name": it["n"], "desc": it["d"], "attrs": {}})),
+			"mod_uses" => { has_module = true; uses.push(it["c"].clone()); },
+			"mod_provides" => { has_module = true; provides.push(json!({"class": it["c"], "with": it["with"]})); },
+			"mod_main" => { has_module = true; attrs.insert("ModuleMainClass".into(), it["c"].clone()); },
+			"none" => {},
+			t => bail!("C07: unknown item {t}"),
+		}
+	}
+	if !is_mod {
+		while insns.len() < frames.len() + 1 { insns.push(op("nop")); }
+		insns.push(op("return"));
+		let n = insns.len();
+		let mut cattrs = Map::new();
+		if !frames.is_empty() {
+			cattrs.insert("StackMapTable".into(), Value::Array(frames.iter().enumerate().map(|(j, c)| json!({"at": j + 1, "locals": [{"object": c}], "stack": []})).collect()));
+		}
+		if !lvt.is_empty() {
+			cattrs.insert("LocalVariableTable".into(), Value::Array(lvt.iter().enumerate().map(|(j, d)| json!({"start": 0, "end": n, "name": format!("v{j}"), "desc": d, "slot": j})).collect()));
+		}
+		if !lvtt.is_empty() {
+			cattrs.insert("LocalVariableTypeTable".into(), Value::Array(lvtt.iter().enumerate().map(|(j, s)| json!({"start": 0, "end": n, "name": format!("v{j}"), "sig": s, "slot": j})).collect()));
+		}
+		let mut car = method_with_code(0x9, "$car", "()V", code(8, 8, insns, exc, Value::Object(cattrs)));
+		if !throws.is_empty() { car["attrs"]["Exceptions"] = Value::Array(throws); }
+		methods.push(car);
+	}
+	if !annos.is_empty() { attrs.insert("RuntimeVisibleAnnotations".into(), Value::Array(annos)); }
+	if !inner.is_empty() { attrs.insert("InnerClasses".into(), Value::Array(inner)); }
+	if !members.is_empty() { attrs.insert("NestMembers".into(), Value::Array(members)); }
+	if !permitted.is_empty() { attrs.insert("PermittedSubclasses".into(), Value::Array(permitted)); }
+	if !record.is_empty() { attrs.insert("Record".into(), Value::Array(record)); }
+	if has_module {
+		attrs.insert("Module".into(), json!({"name": "m", "access": 0, "requires": [{"name": "java.base", "access": 0x8000}], "exports": [{"package": "p", "access": 0, "to": []}],
+			"opens": [], "uses": uses, "provides": provides}));
+	}
+	let sup = st(&c["super"]);
+	let mut f = class([61, 0], if is_mod { 0x8000 } else { 0x21 }, this, if sup.is_empty() { None } else { Some(sup) }, fields, methods, Value::Object(attrs));
+	f["interfaces"] = if c["itfs"].is_array() { c["itfs"].clone() } else { json!([]) };
+	Ok(f)
+}
+
+// ---------------------------------------------------------------------------------------------------------------
+// input classes
+
+fn corpus() -> &'static HashMap<String, Vec<u8>> {
+	static C: OnceLock<HashMap<String, Vec<u8>>> = OnceLock::new();
+	C.get_or_init(|| cfkit::corpus::corpus_classes("thorough").into_iter().collect())
+}
+
+fn samples() -> &'static HashMap<String, Value> {
+	static C: OnceLock<HashMap<String, Value>> = OnceLock::new();
+	C.get_or_init(|| cfkit::samples::sample_classes().into_iter().collect())
+}
+
+fn class_bytes(src: &Value) -> Result<Vec<u8>> {
+	if let Some(id) = src.get("corpus").and_then(Value::as_str) {
+		return corpus().get(id).cloned().with_context(|| format!("corpus class {id}"));
+	}
+	let facts = if let Some(n) = src.get("sample").and_then(Value::as_str) {
+		samples().get(n).cloned().with_context(|| format!("sample {n}"))?
+	} else { syn_class(src)? };
+	cfkit::asm::assemble(&facts, &cfkit::asm::Encoding::default()).map_err(|e| anyhow!("assemble: {e:?}"))
+}
+
+// ---------------------------------------------------------------------------------------------------------------
+// observation of a class file: reference rows per kind, residual chunks, structural summary
+
+fn hash(v: &Value) -> String {
+	let s = serde_json::to_string(v).unwrap_or_default();
+	let mut h: u64 = 0xcbf29ce484222325;
+	for b in s.bytes() { h ^= b as u64; h = h.wrapping_mul(0x100000001b3); }
+	format!("{:012x}", h & 0xffff_ffff_ffff)
+}
+
+fn hash_bytes(b: &[u8]) -> String {
+	let mut h: u64 = 0xcbf29ce484222325;
+	for x in b { h ^= *x as u64; h = h.wrapping_mul(0x100000001b3); }
+	format!("{:012x}", h & 0xffff_ffff_ffff)
+}
+
+fn col(v: &Option<Value>) -> String {
+	match v { None => String::new(), Some(Value::String(s)) => s.clone(), Some(x) => cfkit::facts::s_display(x) }
+}
+
+/// What C01 decided not to be facts of a class file (spec/duke/NOTES-C01.md, ClassFacts!IsFactDifference) is removed from
+/// both sides alike: BootstrapMethods entries nothing uses, attributes with an empty table (annotations at all levels,
+/// StackMapTable, LineNumberTable, LocalVariable(Type)Table), access-flag bits JVMS assigns no meaning, and the bits of
+/// Z B C S element values beyond the declared type.
+fn normalise_nonfacts(v: &mut Value, ctx: &str) {
+	const EMPTY_IS_ABSENT: &[&str] = &["RuntimeVisibleAnnotations", "RuntimeInvisibleAnnotations", "RuntimeVisibleTypeAnnotations", "RuntimeInvisibleTypeAnnotations",
+		"RuntimeVisibleParameterAnnotations", "RuntimeInvisibleParameterAnnotations", "StackMapTable", "LineNumberTable", "LocalVariableTable", "LocalVariableTypeTable"];
+	match v {
+		Value::Object(m) => {
+			m.remove("unreferenced_bootstrap");
+			m.retain(|k, x| !(EMPTY_IS_ABSENT.contains(&k.as_str()) && x.as_array().map_or(false, |a| a.is_empty())));
+			if let Some(a) = m.get("access").and_then(Value::as_u64) {
+				let mask: u64 = match ctx {
+					"" => 0xF631, "fields" => 0x50DF, "methods" => 0x1DFF, "InnerClasses" => 0x761F, "MethodParameters" => 0x9010,
+					"Module" => 0x9020, "requires" => 0x9060, "exports" | "opens" => 0x9000, _ => 0xFFFF,
+				};
+				m.insert("access".into(), json!(a & mask));
+			}
+			if m.len() == 1 {
+				for (t, bits) in [("Z", 0u32), ("B", 8), ("C", 16), ("S", 16)] {
+					if let Some(n) = m.get(t).and_then(Value::as_i64) {
+						let x = match t { "Z" => (n != 0) as i64, "B" => n as i8 as i64, "C" => n as u16 as i64, _ => n as i16 as i64 };
+						let _ = bits;
+						m.insert(t.into(), json!(x));
+					}
+				}
+			}
+			for (k, x) in m.iter_mut() {
+				let c = if ["fields", "methods", "InnerClasses", "MethodParameters", "Module", "requires", "exports", "opens"].contains(&k.as_str()) { k.as_str() } else { ctx };
+				normalise_nonfacts(x, if k == "attrs" || k == "Code" { ctx } else { c });
+			}
+		},
+		Value::Array(a) => for x in a.iter_mut() { normalise_nonfacts(x, ctx); },
+		_ => {},
+	}
+}
+
+/// The order of LocalVariable(Type)Table rows is not a fact; cfkit sorts them by content, i.e. by descriptor first.
+/// Here: by the columns that are no references, so that renaming cannot permute them.
+fn normalise_local_tables(facts: &mut Value) {
+	for m in facts["methods"].as_array_mut().into_iter().flatten() {
+		let Some(a) = m.pointer_mut("/attrs/Code/attrs").and_then(Value::as_object_mut) else { continue };
+		for t in ["LocalVariableTable", "LocalVariableTypeTable"] {
+			if let Some(Value::Array(rows)) = a.get_mut(t) {
+				rows.sort_by(|x, y| {
+					let k = |r: &Value| (r["start"].as_u64(), r["end"].as_u64(), r["slot"].as_u64(), r["name"].to_string());
+					k(x).cmp(&k(y))
+				});
+			}
+		}
+	}
+}
+
+/// Every annotation (an object with "type" and "pairs") below v, in document order, with the zone it stands in.
+fn walk_annotations(v: &mut Value, zone: &'static str, f: &mut dyn FnMut(&mut Value, &'static str)) {
+	match v {
+		Value::Object(m) => {
+			if m.get("type").map_or(false, |t| !t.is_object() || t.get("utf16").is_some()) && m.get("pairs").map_or(false, Value::is_array) && !m.contains_key("op") {
+				let mut tmp = Value::Object(std::mem::take(m));
+				f(&mut tmp, zone);
+				if let Value::Object(o) = tmp { *m = o; }
+			}
+			for (k, x) in m.iter_mut() {
+				let z = if k.ends_with("ParameterAnnotations") { "@param" } else if k == "Record" { "@record" } else { zone };
+				walk_annotations(x, z, f);
+			}
+		},
+		Value::Array(a) => for x in a.iter_mut() { walk_annotations(x, zone, f); },
+		_ => {},
+	}
+}
+
+fn rows_of(facts: &Value) -> Value {
+	let refs = cfkit::refs::references(facts);
+	let mut by: BTreeMap<&str, Vec<Value>> = KINDS.iter().map(|k| (*k, vec![])).collect();
+	let mut zoned: BTreeMap<String, Vec<Value>> = BTreeMap::new();
+	let by_path: HashMap<(&str, &str), &cfkit::refs::RefRow> = refs.iter().map(|r| ((r.kind, r.path.as_str()), r)).collect();
+	for r in &refs {
+		let (o, n, d) = (col(&r.owner), col(&r.name), col(&r.desc));
+		match r.kind {
+			"indy_nt" => {
+				// context of the call site: owner of its bootstrap method, first static argument if a method type
+				let bsm = by_path.get(&("handle", format!("{}.bsm", r.path).as_str())).map(|h| col(&h.owner)).unwrap_or_default();
+				let a0 = by_path.get(&("bsm_arg_mtype", format!("{}.args[0]", r.path).as_str())).map(|h| col(&h.desc)).unwrap_or_default();
+				by.get_mut("indy_nt").expect("kind").push(json!(["", n, d, bsm, a0]));
+			},
+			"inner_class_inner" => {
+				by.get_mut("inner_class_inner").expect("kind").push(json!([o, "", ""]));
+				by.get_mut("x_inner_name").expect("kind").push(json!([o, n, ""]));
+			},
+			k => {
+				// zone of the class file the row stands in (parts that the reader / the remapper are known to lose as a whole)
+				let zone = if k != "record_component" && r.path.starts_with("class.Record[") { "@record" } else if r.path.contains("ParameterAnnotations") { "@param" } else { "" };
+				if zone.is_empty() { if let Some(l) = by.get_mut(k) { l.push(json!([o, n, d])); } }
+				else { zoned.entry(format!("{k}{zone}")).or_default().push(json!([o, n, d])); }
+			},
+		}
+	}
+	let mut copy = facts.clone();
+	walk_annotations(&mut copy, "", &mut |a, zone| {
+		let ty = col(&a.get("type").cloned());
+		for p in a["pairs"].as_array().into_iter().flatten() {
+			let row = json!([ty, col(&p.get(0).cloned()), ""]);
+			if zone.is_empty() { by.get_mut("x_anno_elem").expect("kind").push(row); } else { zoned.entry(format!("x_anno_elem{zone}")).or_default().push(row); }
+		}
+	});
+	let mut all = json!(by);
+	for (k, l) in zoned { all[k] = Value::Array(l); }
+	all
+}
+
+fn chunks(res: &Value) -> Value {
+	let mut out = Map::new();
+	let mut put = |k: String, v: &Value| { out.insert(k, json!(hash(v))); };
+	put("hdr".into(), &json!([res["version"], res["access"], res["this"], res["super"], res["interfaces"], res["fields"].as_array().map(|a| a.len()), res["methods"].as_array().map(|a| a.len())]));
+	for (k, v) in res["attrs"].as_object().into_iter().flatten() {
+		// a Record attribute without components still says "this is a record" (it is not an empty table that states nothing)
+		put(if k == "Record" && v.as_array().map_or(false, |a| a.is_empty()) { "a/Record(empty)".to_owned() } else { format!("a/{k}") }, v);
+	}
+	for (i, f) in res["fields"].as_array().into_iter().flatten().enumerate() {
+		put(format!("f{i}"), &json!([f["access"], f["name"], f["desc"]]));
+		for (k, v) in f["attrs"].as_object().into_iter().flatten() { put(format!("f{i}/{k}"), v); }
+	}
+	for (i, m) in res["methods"].as_array().into_iter().flatten().enumerate() {
+		put(format!("m{i}"), &json!([m["access"], m["name"], m["desc"]]));
+		for (k, v) in m["attrs"].as_object().into_iter().flatten() {
+			if k != "Code" { put(format!("m{i}/{k}"), v); continue; }
+			put(format!("m{i}/Code"), &json!([v["max_stack"], v["max_locals"]]));
+			put(format!("m{i}/Code/insns"), &v["insns"]);
+			put(format!("m{i}/Code/exc"), &v["exceptions"]);
+			for (ck, cv) in v["attrs"].as_object().into_iter().flatten() { put(format!("m{i}/Code/{ck}"), cv); }
+		}
+	}
+	Value::Object(out)
+}
+
+fn raw_summary(raw: &Value) -> Value {
+	// every (index, expected kinds) once, grouped by the expected kinds (as in drivers/c02.rs; judged by WellFormed.tla)
+	let mut groups: BTreeMap<String, (Value, std::collections::BTreeSet<u64>)> = BTreeMap::new();
+	for u in raw["uses"].as_array().map(|a| a.as_slice()).unwrap_or(&[]) {
+		let g = groups.entry(u[1].to_string()).or_insert_with(|| (u[1].clone(), Default::default()));
+		g.1.insert(u[0].as_u64().unwrap_or(u64::MAX));
+	}
+	let uses: Vec<Value> = groups.into_values().map(|(k, idx)| json!([k, idx.into_iter().collect::<Vec<_>>()])).collect();
+	let lengths: Vec<Value> = raw["lengths"].as_array().map(|a| a.as_slice()).unwrap_or(&[]).iter().map(|l| json!([l[0], l[1]])).collect();
+	json!({"pool": raw["pool"], "uses": uses, "lengths": lengths, "limits": raw["limits"]})
+}
+
+fn observe_facts(mut facts: Value) -> Value {
+	normalise_nonfacts(&mut facts, "");
+	normalise_local_tables(&mut facts);
+	let mut res = cfkit::refs::residual(&facts);
+	walk_annotations(&mut res, "", &mut |a, _| for p in a["pairs"].as_array_mut().into_iter().flatten() { if let Some(n) = p.get_mut(0) { *n = json!("_"); } });
+	let mut sup: Vec<Value> = vec![];
+	for s in facts.get("super").into_iter().chain(facts["interfaces"].as_array().into_iter().flatten()) { if !sup.contains(s) { sup.push(s.clone()); } }
+	json!({"this": col(&facts.get("this").cloned()), "rows": rows_of(&facts), "res": chunks(&res), "sup": sup})
+}
+
+fn observe(bytes: &[u8], wf: bool) -> Value {
+	let parsed = if wf { cfkit::parse::parse_class(bytes) } else { cfkit::parse::parse_class_facts_only(bytes) };
+	match parsed {
+		Ok(p) => {
+			let mut o = observe_facts(p.facts);
+			if wf { o["wf"] = json!({"parse": "ok", "raw": raw_summary(&p.raw)}); }
+			o
+		},
+		Err(e) => json!({"this": "", "rows": {}, "res": {}, "sup": [], "wf": {"parse": "err", "msg": format!("{e:?}")}}),
+	}
+}
+
+fn kind_of(name: &str, is_dir: bool) -> &'static str {
+	if is_dir { "dir" } else if name.ends_with(".class") { "class" } else { "other" }
+}
+
+fn lib_prov(v: &Value) -> Result<JarSuperProv> {
+	let mut super_classes = IndexMap::new();
+	for (k, s) in v.as_object().into_iter().flatten() {
+		let mut set = IndexSet::new();
+		for x in s.as_array().into_iter().flatten() { set.insert(ObjClassName::try_from(js(st(x)))?); }
+		super_classes.insert(ObjClassName::try_from(js(k))?, set);
+	}
+	Ok(JarSuperProv { super_classes })
+}
+
+fn refused(stage: &str, e: anyhow::Error, extra: Value) -> Value {
+	let mut g = json!({"ok": false, "v": [], "stage": stage, "err": format!("{e:#}").chars().take(300).collect::<String>()});
+	for (k, v) in extra.as_object().into_iter().flatten() { g[k] = v.clone(); }
+	g
+}
+
+pub fn exec(v: &Value) -> Result<Value> {
+	// ---- the input jar, and what it states (independent parser)
+	let mut entries: Vec<(String, Vec<u8>)> = vec![];
+	let mut in_entries = vec![];
+	let mut in_classes = Map::new();
+	let mut sup = Map::new();
+	for (k, s) in v["lib"].as_object().into_iter().flatten() { sup.insert(k.clone(), s.clone()); }
+	let mut jar_sup = Map::new();
+	for e in v["jar"].as_array().context("jar")? {
+		let name = st(&e["n"]).to_owned();
+		match st(&e["k"]) {
+			"dir" => { in_entries.push(json!([name, "dir", ""])); entries.push((name, vec![])); },
+			"other" => {
+				let data = st(&e["d"]).as_bytes().to_vec();
+				in_entries.push(json!([name, "other", hash_bytes(&data)]));
+				entries.push((name, data));
+			},
+			"class" => {
+				let data = class_bytes(&e["c"])?;
+				let mut o = observe(&data, false);
+				if o.get("wf").is_some() { bail!("C07: the input class {name} is not parseable: {}", o["wf"]); }
+				if let Some(s) = o.as_object_mut().and_then(|m| m.remove("sup")) { jar_sup.insert(st(&o["this"]).to_owned(), s); }
+				in_entries.push(json!([name, "class", hash_bytes(&data)]));
+				in_classes.insert(name.clone(), o);
+				entries.push((name, data));
+			},
+			k => bail!("C07: entry kind {k}"),
+		}
+	}
+	for (k, s) in jar_sup { sup.insert(k, s); }          // the jar's own classes come first in the provider list
+	let input = json!({"entries": in_entries, "classes": in_classes});
+	let base = json!({"sup": sup, "in": input});
+	let data = zip_entries(&entries)?;
+
+	// ---- the code under test
+	let m: Mappings<2, Ns> = json_to_tree(&v["M"])?;
+	let jar = UnnamedMemJar { data };
+	let own = match jar.get_super_classes_provider() { Ok(p) => p, Err(e) => return Ok(refused("provider", e, base)) };
+	let inheritance = vec![own, lib_prov(&v["lib"])?];
+	let remapper = match m.remapper_b_first_to_second(&inheritance) { Ok(r) => r, Err(e) => return Ok(refused("remapper", e, base)) };
+	let out = match dukebox::remap::remap(jar.clone(), remapper) { Ok(o) => o, Err(e) => return Ok(refused("remap", e, base)) };
+	let mut tree = Map::new();
+	for (name, e) in &out.entries {
+		if let JarEntryEnum::Class(ClassRepr::Parsed { class }) = &e.content {
+			let t = match cfkit::proj_duke::duke_to_facts(class) {
+				Ok(f) => json!({"frames": rows_of(&f)["frame_object"]}),
+				Err(e) => json!({"err": e.0}),
+			};
+			tree.insert(name.clone(), t);
+		}
+	}
+	let mem = match out.to_mem() { Ok(m) => m, Err(e) => return Ok(refused("write", e, base)) };
+
+	// ---- the result, reopened
+	let mut z = match zip::ZipArchive::new(Cursor::new(&mem.data)) { Ok(z) => z, Err(e) => return Ok(refused("reopen", e.into(), base)) };
+	let mut out_entries = vec![];
+	let mut out_names = Map::new();
+	let mut out_classes = Map::new();
+	for i in 0..z.len() {
+		let mut f = z.by_index(i)?;
+		let name = f.name().to_owned();
+		let mut b = vec![];
+		f.read_to_end(&mut b)?;
+		let kind = kind_of(&name, f.is_dir());
+		out_entries.push(json!([name, kind, if kind == "dir" { String::new() } else { hash_bytes(&b) }]));
+		out_names.insert(name.clone(), json!(kind));
+		if kind == "class" {
+			let mut o = observe(&b, true);
+			if let Some(m) = o.as_object_mut() { m.remove("sup"); }
+			out_classes.insert(name, o);
+		}
+	}
+	let mut g = base;
+	g["ok"] = json!(true);
+	g["out"] = json!({"entries": out_entries, "names": out_names, "classes": out_classes});
+	g["tree"] = Value::Object(tree);
+	Ok(g)
+}
+
+// ---------------------------------------------------------------------------------------------------------------
+// seeded random cases, bigger than the model's universe
+
+struct CInfo { id: String, this: String, sups: Vec<String>, fields: Vec<(String, String)>, methods: Vec<(String, String)> }
+
+fn corpus_index() -> &'static Vec<CInfo> {
+	static C: OnceLock<Vec<CInfo>> = OnceLock::new();
+	C.get_or_init(|| {
+		let mut ids: Vec<&String> = corpus().keys().collect();
+		ids.sort();
+		let mut out = vec![];
+		for id in ids {
+			let Ok(p) = cfkit::parse::parse_class_facts_only(&corpus()[id]) else { continue };
+			let f = &p.facts;
+			let Some(this) = f["this"].as_str() else { continue };
+			let mem = |k: &str| -> Option<Vec<(String, String)>> {
+				f[k].as_array()?.iter().map(|m| Some((m["name"].as_str()?.to_owned(), m["desc"].as_str()?.to_owned()))).collect()
+			};
+			let (Some(fields), Some(methods)) = (mem("fields"), mem("methods")) else { continue };
+			let sups: Vec<String> = f.get("super").into_iter().chain(f["interfaces"].as_array().into_iter().flatten()).filter_map(|s| s.as_str().map(str::to_owned)).collect();
+			out.push(CInfo { id: id.clone(), this: this.to_owned(), sups, fields, methods });
+		}
+		out
+	})
+}
+
+fn mnode(kind: &str, src: &str, dst: &str, desc: &str, kids: Map<String, Value>) -> Value {
+	json!({"kind": kind, "names": [src, dst], "desc": desc, "idx": 0, "doc": [], "kids": Value::Object(kids)})
+}
+
+/// A mapping set for the given classes: `classes` = (name, fields, methods, may rename).
+struct MapGen { n: usize }
+impl MapGen {
+	fn fresh(&mut self, p: &str) -> String { self.n += 1; format!("{p}{}", self.n) }
+	fn class_target(&mut self, r: &mut StdRng, name: &str, outer_target: Option<&str>) -> String {
+		let simple = name.rsplit('/').next().unwrap_or(name);
+		let pkg = &name[..name.len() - simple.len()];
+		if let (Some(ot), Some(pos)) = (outer_target, simple.rfind('$')) {
+			if r.gen_bool(0.8) { return format!("{ot}${}", if r.gen_bool(0.5) { self.fresh("N") } else { simple[pos + 1..].to_owned() }); }
+		}
+		match r.gen_range(0..4) {
+			0 => format!("{pkg}{}", self.fresh("R")),                       // same package
+			1 => format!("moved/pkg{}/{}", r.gen_range(0..3), self.fresh("M")), // package move
+			2 => self.fresh("Top"),                                        // into the default package
+			_ => format!("{pkg}{}", if simple.contains('$') { format!("{}${}", self.fresh("O"), self.fresh("I")) } else { self.fresh("S") }),
+		}
+	}
+}
+
+fn build_mappings(r: &mut StdRng, classes: &[(String, Vec<(String, String)>, Vec<(String, String)>)], p_class: f64, p_member: f64) -> Value {
+	let mut g = MapGen { n: 0 };
+	let mut targets: HashMap<String, String> = HashMap::new();
+	let mut kids = Map::new();
+	let mut sorted: Vec<&(String, Vec<(String, String)>, Vec<(String, String)>)> = classes.iter().collect();
+	sorted.sort_by_key(|c| c.0.len());          // outer classes before their inner classes
+	for (name, fields, methods) in sorted.into_iter().map(|c| (&c.0, &c.1, &c.2)) {
+		if kids.contains_key(&format!("c {name}")) || name.starts_with('[') || name == "module-info" { continue; }
+		let outer_t = name.rfind('$').and_then(|p| targets.get(&name[..p])).cloned();
+		// java/lang/Object keeps its name (the meaning of an <init> frame depends on it); its members may be renamed
+		let renamed = name != "java/lang/Object" && r.gen_bool(p_class);
+		let target = if renamed { g.class_target(r, name, outer_t.as_deref()) } else if r.gen_bool(0.7) { name.clone() } else { String::new() };
+		if renamed { targets.insert(name.clone(), target.clone()); }
+		let mut mk = Map::new();
+		for (n, d) in fields { if r.gen_bool(p_member) { mk.insert(format!("f {n} {d}"), mnode("f", n, &g.fresh("f_"), d, Map::new())); } }
+		for (n, d) in methods { if !n.starts_with('<') && r.gen_bool(p_member) { mk.insert(format!("m {n} {d}"), mnode("m", n, &g.fresh("m_"), d, Map::new())); } }
+		if !renamed && mk.is_empty() { continue; }
+		kids.insert(format!("c {name}"), mnode("c", name, &target, "", mk));
+	}
+	json!({"ns": ["a", "b"], "doc": [], "kids": Value::Object(kids)})
+}
+
+fn extras(r: &mut StdRng, jar: &mut Vec<Value>, first_class: Option<(String, Value)>) {
+	if r.gen_bool(0.5) { jar.push(json!({"n": "META-INF/MANIFEST.MF", "k": "other", "d": "Manifest-Version: 1.0\r\n"})); }
+	if r.gen_bool(0.3) { jar.insert(0, json!({"n": "META-INF/", "k": "dir"})); }
+	if r.gen_bool(0.3) { jar.push(json!({"n": "corpus/", "k": "dir"})); }
+	if r.gen_bool(0.3) { jar.push(json!({"n": "assets/names.txt", "k": "other", "d": "corpus/Arith corpus.Arith Lcorpus/Arith;"})); }
+	if let Some((this, src)) = first_class {
+		if r.gen_bool(0.08) { jar.push(json!({"n": format!("META-INF/versions/{}/{this}.class", r.gen_range(9..22)), "k": "class", "c": src})); }
+		else if r.gen_bool(0.03) { jar.push(json!({"n": "odd/Place.class", "k": "class", "c": src})); }
+	}
+	if r.gen_bool(0.3) { jar.shuffle(r); }
+}
+
+const JDK_MEMBERS: &[(&str, &[(&str, &str)])] = &[
+	("java/lang/Object", &[("toString", "()Ljava/lang/String;"), ("hashCode", "()I"), ("equals", "(Ljava/lang/Object;)Z")]),
+	("java/lang/Runnable", &[("run", "()V")]),
+	("java/lang/Comparable", &[("compareTo", "(Ljava/lang/Object;)I")]),
+	("java/util/function/Function", &[("apply", "(Ljava/lang/Object;)Ljava/lang/Object;")]),
+	("java/util/function/Supplier", &[("get", "()Ljava/lang/Object;")]),
+	("java/lang/Enum", &[("name", "()Ljava/lang/String;"), ("ordinal", "()I")]),
+	("java/lang/Record", &[]),
+];
+
+fn gen_corpus(r: &mut StdRng) -> Value {
+	let idx = corpus_index();
+	let flavours: Vec<&str> = { let mut f: Vec<&str> = idx.iter().filter_map(|c| c.id.split('/').next()).collect(); f.sort(); f.dedup(); f };
+	let fl = *flavours.choose(r).expect("flavour");
+	let pool: Vec<&CInfo> = idx.iter().filter(|c| c.id.starts_with(&format!("{fl}/"))).collect();
+	// groups: an outer class with its nested classes
+	let outer = |c: &CInfo| c.this.split('$').next().unwrap_or("").to_owned();
+	let mut chosen: Vec<&CInfo> = vec![];
+	for _ in 0..r.gen_range(1..=3) {
+		let seed = pool.choose(r).expect("class");
+		for c in pool.iter().filter(|c| outer(c) == outer(seed)) { if !chosen.iter().any(|x| x.this == c.this) && chosen.len() < 14 { chosen.push(c); } }
+	}
+	// super types that live in the corpus join the jar most of the time (inheritance inside the jar)
+	let mut i = 0;
+	while i < chosen.len() && chosen.len() < 18 {
+		for s in chosen[i].sups.clone() {
+			if let Some(c) = pool.iter().find(|c| c.this == s) { if r.gen_bool(0.7) && !chosen.iter().any(|x| x.this == c.this) { chosen.push(c); } }
+		}
+		i += 1;
+	}
+	if r.gen_bool(0.5) { chosen.shuffle(r); }
+	let mut jar: Vec<Value> = chosen.iter().map(|c| json!({"n": format!("{}.class", c.this), "k": "class", "c": {"corpus": c.id}})).collect();
+	// mapped: the jar's classes, some corpus classes outside the jar (their super types), some JDK types with members
+	let mut mclasses: Vec<(String, Vec<(String, String)>, Vec<(String, String)>)> = chosen.iter().map(|c| (c.this.clone(), c.fields.clone(), c.methods.clone())).collect();
+	let mut lib = Map::new();
+	for c in &chosen {
+		for s in &c.sups {
+			if chosen.iter().any(|x| &x.this == s) || lib.contains_key(s) { continue; }
+			if let Some(o) = pool.iter().find(|o| &o.this == s) {
+				lib.insert(s.clone(), json!(o.sups));
+				mclasses.push((o.this.clone(), o.fields.clone(), o.methods.clone()));
+			} else if let Some((n, ms)) = JDK_MEMBERS.iter().find(|(n, _)| n == s) {
+				lib.insert((*n).to_owned(), json!(if *n == "java/lang/Object" { vec![] } else { vec!["java/lang/Object"] }));
+				mclasses.push(((*n).to_owned(), vec![], ms.iter().map(|(a, b)| ((*a).to_owned(), (*b).to_owned())).collect()));
+			}
+		}
+	}
+	if r.gen_bool(0.5) && !lib.contains_key("java/lang/Object") {
+		lib.insert("java/lang/Object".into(), json!([]));
+		mclasses.push(("java/lang/Object".into(), vec![], JDK_MEMBERS[0].1.iter().map(|(a, b)| ((*a).to_owned(), (*b).to_owned())).collect()));
+	}
+	let (pc, pm) = *[(0.0, 0.0), (0.3, 0.2), (0.7, 0.5), (1.0, 1.0), (1.0, 0.0), (0.0, 0.6)].choose(r).expect("p");
+	let m = build_mappings(r, &mclasses, pc, pm);
+	let first = chosen.first().map(|c| (c.this.clone(), json!({"corpus": c.id})));
+	extras(r, &mut jar, first);
+	json!({"op": "remap", "cls": "corpus", "M": m, "lib": Value::Object(lib), "jar": jar})
+}
+
+/// Samples that are no well-formed class files (NOTES-C01.md: empty names, duplicate attributes, version 65535.65535,
+/// SourceDebugExtension that is not modified UTF-8): outside the property.
+/// `local_variable_tables` has a LocalVariableTable row that starts at code_length (JVMS 4.7.13: start_pc must be an opcode index).
+const NOT_WELL_FORMED: &[&str] = &["odd_strings", "duplicate_attributes", "extreme_numbers", "source_debug_extension_not_mutf8", "local_variable_tables"];
+
+fn gen_sample(r: &mut StdRng, i: usize) -> Value {
+	let mut names: Vec<&String> = samples().keys().filter(|n| !NOT_WELL_FORMED.contains(&n.as_str())).collect();
+	names.sort();
+	let name = names[i % names.len()];
+	let f = &samples()[name];
+	let this = st(&f["this"]).to_owned();
+	// everything named k/.. in the sample may be renamed: collect the class names of its reference rows
+	let rows = rows_of(f);
+	let mut cls: Vec<String> = vec![this.clone()];
+	for (_, l) in rows.as_object().into_iter().flatten() {
+		for row in l.as_array().into_iter().flatten() {
+			for c in row.as_array().into_iter().flatten() {
+				let s = st(c);
+				let mut rest = s;
+				while let Some(p) = rest.find("k/") {
+					let tail = &rest[p..];
+					let end = tail.find(|ch: char| ch == ';' || ch == '<' || ch == '.' || ch == ')').unwrap_or(tail.len());
+					let n = &tail[..end];
+					if !cls.iter().any(|x| x == n) && (p == 0 || !rest[..p].ends_with(|ch: char| ch.is_alphanumeric())) { cls.push(n.to_owned()); }
+					rest = &tail[end..];
+				}
+			}
+		}
+	}
+	let members = |k: &str| -> Vec<(String, String)> { f[k].as_array().into_iter().flatten().filter_map(|m| Some((m["name"].as_str()?.to_owned(), m["desc"].as_str()?.to_owned()))).collect() };
+	let mut mclasses: Vec<(String, Vec<(String, String)>, Vec<(String, String)>)> = vec![(this.clone(), members("fields"), members("methods"))];
+	for c in cls.iter().skip(1) { mclasses.push((c.clone(), vec![], vec![])); }
+	let (pc, pm) = *[(1.0, 1.0), (0.5, 0.5), (1.0, 0.0)].choose(r).expect("p");
+	let m = build_mappings(r, &mclasses, pc, pm);
+	let mut jar = vec![json!({"n": format!("{this}.class"), "k": "class", "c": {"sample": name}})];
+	extras(r, &mut jar, None);
+	json!({"op": "remap", "cls": format!("sample/{name}"), "M": m, "lib": {}, "jar": jar})
+}
+
+fn gen_items(r: &mut StdRng) -> Value {
+	// generated classes: a small hierarchy (inside and outside the jar) and random items over its names
+	let pk = ["a/", "a/b/", "", "zz/y/"];
+	let n = r.gen_range(2..7);
+	let mut names: Vec<String> = vec![];
+	for i in 0..n {
+		let nm = if i > 0 && r.gen_bool(0.35) { format!("{}$In{i}", names[r.gen_range(0..i)]) } else { format!("{}C{i}", pk.choose(r).expect("pk")) };
+		names.push(nm);
+	}
+	let outside = ["ext/Base".to_owned(), "ext/Itf".to_owned(), "ext/Top".to_owned()];
+	let fdescs = |r: &mut StdRng, names: &Vec<String>| -> String {
+		match r.gen_range(0..5) { 0 => "I".into(), 1 => "[J".into(), 2 => format!("L{};", names.choose(r).expect("n")), 3 => format!("[[L{};", names.choose(r).expect("n")), _ => "Ljava/lang/String;".into() }
+	};
+	let mdescs = |r: &mut StdRng, names: &Vec<String>| -> String {
+		let k = r.gen_range(0..3);
+		let ps: String = (0..k).map(|_| fdescs(r, names)).collect();
+		format!("({ps}){}", if r.gen_bool(0.4) { "V".to_owned() } else { fdescs(r, names) })
+	};
+	let mut decl: Vec<(String, Vec<(String, String)>, Vec<(String, String)>, Vec<String>)> = vec![];
+	for (i, nm) in names.iter().enumerate() {
+		let fields: Vec<(String, String)> = (0..r.gen_range(0..3)).map(|j| (format!("f{}", (i + j) % 4), fdescs(r, &names))).collect();
+		let methods: Vec<(String, String)> = (0..r.gen_range(0..3)).map(|j| (format!("m{}", (i + j) % 4), if r.gen_bool(0.5) { "()V".to_owned() } else { mdescs(r, &names) })).collect();
+		let mut sups = vec![];
+		sups.push(if i + 1 < names.len() && r.gen_bool(0.6) { names[r.gen_range(i + 1..names.len())].clone() } else if r.gen_bool(0.5) { outside[0].clone() } else { "java/lang/Object".to_owned() });
+		if r.gen_bool(0.3) { sups.push(outside[1].clone()); }
+		if i + 1 < names.len() && r.gen_bool(0.2) { let s = names[r.gen_range(i + 1..names.len())].clone(); if !sups.contains(&s) { sups.push(s); } }
+		let _ = nm;
+		decl.push((nm.clone(), fields, methods, sups));
+	}
+	// members that exist somewhere in the hierarchy (so that references through sub types resolve by inheritance)
+	let all_f: Vec<(String, String, String)> = decl.iter().flat_map(|d| d.1.iter().map(move |f| (d.0.clone(), f.0.clone(), f.1.clone()))).collect();
+	let mut all_m: Vec<(String, String, String)> = decl.iter().flat_map(|d| d.2.iter().map(move |f| (d.0.clone(), f.0.clone(), f.1.clone()))).collect();
+	all_m.push(("ext/Top".into(), "top".into(), "()V".into()));
+	all_m.push(("ext/Itf".into(), "call".into(), "()Ljava/lang/Object;".into()));
+	let any_class = |r: &mut StdRng| -> String { if r.gen_bool(0.15) { outside.choose(r).expect("o").clone() } else { names.choose(r).expect("n").clone() } };
+	let mut jar = vec![];
+	for (i, d) in decl.iter().enumerate() {
+		let mut items = vec![];
+		for _ in 0..r.gen_range(0..9) {
+			let c = any_class(r);
+			let arr = if r.gen_bool(0.2) { format!("[L{c};") } else { c.clone() };
+			let fr = |r: &mut StdRng| -> (String, String, String) {
+				if !all_f.is_empty() && r.gen_bool(0.8) { let f = all_f.choose(r).expect("f"); (if r.gen_bool(0.5) { f.0.clone() } else { names.choose(r).expect("n").clone() }, f.1.clone(), f.2.clone()) }
+				else { (names.choose(r).expect("n").clone(), "nofield".into(), "I".into()) }
+			};
+			let mr = |r: &mut StdRng| -> (String, String, String) {
+				let f = all_m.choose(r).expect("m"); (if r.gen_bool(0.5) && !f.0.starts_with("ext/") { f.0.clone() } else { names.choose(r).expect("n").clone() }, f.1.clone(), f.2.clone())
+			};
+			let it = match r.gen_range(0..24) {
+				0 => { let f = fr(r); json!({"t": "insn_field", "o": f.0, "n": f.1, "d": f.2}) },
+				1 => { let f = mr(r); json!({"t": "insn_method", "o": f.0, "n": f.1, "d": f.2}) },
+				2 => json!({"t": "insn_class", "c": arr}),
+				3 => json!({"t": "ldc_class", "c": arr}),
+				4 => json!({"t": "ldc_mtype", "d": mdescs(r, &names)}),
+				5 => { let f = if r.gen_bool(0.5) { fr(r) } else { mr(r) }; json!({"t": "ldc_handle", "o": f.0, "n": f.1, "d": f.2}) },
+				6 => {
+					let itf = all_m.choose(r).expect("m");
+					let h = mr(r);
+					json!({"t": "indy", "n": itf.1, "d": format!("()L{};", if r.gen_bool(0.6) { itf.0.clone() } else { c.clone() }), "bsm": ["java/lang/invoke/LambdaMetafactory", "metafactory", "(Ljava/lang/invoke/MethodHandles$Lookup;Ljava/lang/String;Ljava/lang/invoke/MethodType;Ljava/lang/invoke/MethodType;Ljava/lang/invoke/MethodHandle;Ljava/lang/invoke/MethodType;)Ljava/lang/invoke/CallSite;"],
+						"args": [["mtype", "", "", itf.2], ["handle", h.0, h.1, h.2], ["mtype", "", "", itf.2]]})
+				},
+				7 => { let h = mr(r); let f = fr(r); let indy = r.gen_bool(0.5); json!({"t": if indy { "indy" } else { "condy" }, "n": "dyn", "d": if indy { mdescs(r, &names) } else { fdescs(r, &names) },
+					"bsm": [h.0, h.1, h.2], "args": [["class", arr, "", ""], ["handle", f.0, f.1, f.2], ["mtype", "", "", mdescs(r, &names)]]}) },
+				8 => json!({"t": "catch", "c": c}),
+				9 => json!({"t": "frame", "c": arr}),
+				10 => json!({"t": "lvt", "d": fdescs(r, &names)}),
+				11 => json!({"t": "lvtt", "s": format!("L{c}<L{};>;", any_class(r))}),
+				12 => { let f = fr(r); json!({"t": "anno", "ty": format!("L{c};"), "pairs": [["e", "en", format!("L{};", f.0), f.1], ["c", "cl", fdescs(r, &names), ""], ["i", "num", "", ""]]}) },
+				13 => json!({"t": "sig", "s": format!("<T:L{c};>Ljava/lang/Object;L{}<TT;>;", any_class(r))}),
+				14 => { let p = c.rfind('$'); json!({"t": "inner", "inner": c, "outer": p.map(|p| c[..p].to_owned()).unwrap_or_default(), "name": p.map(|p| c[p + 1..].to_owned()).unwrap_or_default()}) },
+				15 => { let f = mr(r); if r.gen_bool(0.7) { json!({"t": "encl", "o": f.0, "n": f.1, "d": f.2}) } else { json!({"t": "encl", "o": f.0, "n": "", "d": ""}) } },
+				16 => json!({"t": "nest_host", "c": c}),
+				17 => json!({"t": "nest_member", "c": c}),
+				18 => json!({"t": "permitted", "c": c}),
+				19 => json!({"t": "exceptions", "c": c}),
+				20 => { let f = d.1.first().cloned().unwrap_or(("rc".into(), "I".into())); json!({"t": "record", "n": f.0, "d": f.1}) },
+				21 => if r.gen_bool(0.6) { json!({"t": "insn_method", "o": format!("[L{c};"), "n": "clone", "d": "()Ljava/lang/Object;"}) }
+					else { json!({"t": "insn_method", "o": format!("[[L{c};"), "n": "equals", "d": format!("(L{};)Z", any_class(r))}) },
+				22 => { let sg = match c.rfind('$') { Some(p) => format!("L{}<TT;>.{};", &c[..p], &c[p + 1..]), None => format!("L{c};") }; json!({"t": "sig", "s": sg}) },
+				_ => json!({"t": "lvtt", "s": "TT;"}),
+			};
+			items.push(it);
+		}
+		let _ = i;
+		jar.push(json!({"n": format!("{}.class", d.0), "k": "class", "c": {"this": d.0, "super": d.3[0], "itfs": d.3[1..].to_vec(),
+			"fields": d.1.iter().map(|f| json!([f.0, f.1])).collect::<Vec<_>>(), "methods": d.2.iter().map(|f| json!([f.0, f.1])).collect::<Vec<_>>(), "items": items}}));
+	}
+	if r.gen_bool(0.2) {
+		jar.push(json!({"n": "module-info.class", "k": "class", "c": {"this": "module-info", "super": "", "itfs": [], "fields": [], "methods": [],
+			"items": [{"t": "mod_uses", "c": any_class(r)}, {"t": "mod_provides", "c": any_class(r), "with": [any_class(r)]}, {"t": "mod_main", "c": any_class(r)}]}}));
+	}
+	let mut mclasses: Vec<(String, Vec<(String, String)>, Vec<(String, String)>)> = decl.iter().map(|d| (d.0.clone(), d.1.clone(), d.2.clone())).collect();
+	mclasses.push(("ext/Top".into(), vec![], vec![("top".into(), "()V".into())]));
+	mclasses.push(("ext/Itf".into(), vec![], vec![("call".into(), "()Ljava/lang/Object;".into())]));
+	mclasses.push(("ext/Base".into(), vec![], vec![]));
+	let (pc, pm) = *[(0.0, 0.0), (0.4, 0.3), (0.8, 0.7), (1.0, 1.0), (0.0, 0.7)].choose(r).expect("p");
+	let m = build_mappings(r, &mclasses, pc, pm);
+	let first = jar.first().map(|e| (st(&e["c"]["this"]).to_owned(), e["c"].clone()));
+	extras(r, &mut jar, first);
+	json!({"op": "remap", "cls": "generated", "M": m, "lib": {"ext/Base": ["ext/Top", "ext/Itf"], "ext/Top": [], "ext/Itf": []}, "jar": jar})
+}
+
+pub fn gen(seed: u64, n: usize) -> Result<Vec<Value>> {
+	let mut r = StdRng::seed_from_u64(seed ^ 0xC07);
+	let nsamples = samples().len() - NOT_WELL_FORMED.len();
+	let mut out = vec![];
+	// every sample class once (each reference kind occurs among them), then corpus jars and generated jars
+	for i in 0..nsamples.min(n) { out.push(gen_sample(&mut r, i)); }
+	while out.len() < n {
+		out.push(if r.gen_bool(0.6) { gen_corpus(&mut r) } else { gen_items(&mut r) });
+	}
+	Ok(out)
+}
